@@ -106,7 +106,7 @@ def grep_forbidden():
     return hits
 
 
-def lean_side(prop, thorough=False):
+def lean_side(prop, thorough=False, driver=None):
     """Regenerate tables, build, audit the theorems of `prop`.
 
     Returns a dict with `obligations` (names), `discharged` (names), `failures`
@@ -131,7 +131,7 @@ def lean_side(prop, thorough=False):
         thms = entry.get('theorems', [])
         mods = entry.get('modules', [])
         res['obligations'] = list(thms)
-        rc, out = _lake(['build', 'DD', 'ddvdrv'] + mods)
+        rc, out = _lake(['build', 'DD', 'ddvdrv'] + ([driver] if driver else []) + mods)
         if rc != 0:
             res['ok'] = False
             res['failures'].append('lake build failed:\n' + out[-4000:])
@@ -477,6 +477,7 @@ class Ctx:
         self.pending = []         # (lines, answers, sections, label)
         self.budget_s = 60 if tier == 'quick' else 600
         self.driver = None        # name of the lean_exe that replays this check's sessions
+        self.shard, self.nshards = 0, 1   # thorough tier: this process's part of the work
 
     def time_left(self):
         return self.budget_s - (time.time() - self.t0)
@@ -621,7 +622,9 @@ def finish(ctx, lean, level_text, trusted, rule, extra_cov=None):
         property_id=ctx.prop, tier=ctx.tier, seed=ctx.seed, level='proof',
         coverage=cov, assumptions=trusted, wall_s=round(time.time() - ctx.t0, 2),
         violations=n_viol + (1 if (broken and n_viol == 0) else 0))
-    os.makedirs(os.path.join(VERIF, 'evidence'), exist_ok=True)
-    with open(os.path.join(VERIF, 'evidence', f'{ctx.prop}.json'), 'w') as f:
+    # (seedtest.py redirects the evidence of runs against a seeded change to a scratch directory)
+    evdir = os.environ.get('VERIF_EVIDENCE_DIR') or os.path.join(VERIF, 'evidence')
+    os.makedirs(evdir, exist_ok=True)
+    with open(os.path.join(evdir, f'{ctx.prop}.json'), 'w') as f:
         json.dump(ev, f, indent=1, default=str)
     return code
